@@ -18,9 +18,11 @@ class OperatorData():
 
     """
     def __init__(self, fun_name, priority, *, assoc=None, arity=BINARY,
-                 ascii_op, unicode_op=None, key=None):
+                 ascii_op, unicode_op=None, key=None, outer=None):
         self.fun_name = fun_name
         self.priority = priority
+        # priority of the whole expression when it is an argument (the grammar's level of a prefix operator)
+        self.outer = priority if outer is None else outer
         self.assoc = assoc
         self.arity = arity
         self.ascii_op = ascii_op
@@ -61,10 +63,10 @@ op_data_raw = [
     OperatorData("implies", 20, assoc=RIGHT, ascii_op="-->", unicode_op="⟶"),
     OperatorData("conj", 35, assoc=RIGHT, ascii_op="&", unicode_op="∧"),
     OperatorData("disj", 30, assoc=RIGHT, ascii_op="|", unicode_op="∨"),
-    OperatorData("neg", 95, arity=UNARY, ascii_op="~", unicode_op="¬"),
+    OperatorData("neg", 95, arity=UNARY, ascii_op="~", unicode_op="¬", outer=40),
     OperatorData("plus", 65, assoc=LEFT, ascii_op="+"),
     OperatorData("minus", 65, assoc=LEFT, ascii_op="-"),
-    OperatorData("uminus", 95, arity=UNARY, ascii_op="-"),
+    OperatorData("uminus", 95, arity=UNARY, ascii_op="-", outer=82),
     OperatorData("power", 81, assoc=LEFT, ascii_op="^"),
     OperatorData("times", 70, assoc=LEFT, ascii_op="*"),
     OperatorData("real_divide", 70, assoc=LEFT, ascii_op="/"),
@@ -82,8 +84,8 @@ op_data_raw = [
     OperatorData("inter", 70, assoc=LEFT, ascii_op="Int", unicode_op="∩"),
     OperatorData("union", 63, assoc=LEFT, ascii_op="Un", unicode_op="∪"),
     OperatorData("empty_set", 0, arity=CONST, ascii_op="{}", unicode_op="∅"),
-    OperatorData("Union", 95, arity=UNARY, ascii_op="UN ", unicode_op="⋃"),
-    OperatorData("Inter", 95, arity=UNARY, ascii_op="INT ", unicode_op="⋂"),
+    OperatorData("Union", 95, arity=UNARY, ascii_op="UN ", unicode_op="⋃", outer=90),
+    OperatorData("Inter", 95, arity=UNARY, ascii_op="INT ", unicode_op="⋂", outer=91),
     OperatorData("comp_fun", 60, assoc=RIGHT, ascii_op="O", unicode_op="∘"),
 ]
 
